@@ -11,7 +11,7 @@ from ptstat import AnalysisError, algebra
 from ptstat.symval import SymObj, Phi, SymRaise, Closure, BoundMethod, merge
 from ptstat.symx import Frame
 from ptstat.world import mass_sym
-from .common import world, eq, dict_eq, fsite, raises, folder, _s
+from .common import world, eq, dict_eq, fsite, raises, folder, _s, public_entry_points
 
 EXPLANATION = (
     "Value graphs of Formula.natural_mass_ratio, the natural_density getter/setter, the density "
@@ -331,6 +331,7 @@ def run(ctx):
     twice = I.call(fm, [[(sp.Integer(1), Fe_), (sp.Integer(2), Fe_)]], {})
     eq(ctx, "R2", "a single atom written as several groups keeps that atom's density", I.getattr(twice, "density"), I.getattr(Fe_, "density"),
        fsite(ctx, "formulas.Formula.__init__"))
+    public_entry_points(ctx, "RW", [("formula", "formulas.formula")])
     ctx.floor("R2", 23)
 
     # ---- R3 isotope substitution ---------------------------------------------
